@@ -39,3 +39,35 @@ func TestC04CDNA3Fields(t *testing.T) {
 		t.Errorf("s_load_dword with offset field 0x1FFFFC on CDNA3: offset = %v, want -4 (signed 21 bits)", inst.Offset.IntValue)
 	}
 }
+
+// Scalar operand codes above 101 in fields that were turned into s<code> (R04.21).
+func TestC04ScalarOperandCodes(t *testing.T) {
+	dec := func(words ...uint32) *Inst {
+		buf := make([]byte, 4*len(words))
+		for i, w := range words {
+			binary.LittleEndian.PutUint32(buf[4*i:], w)
+		}
+		d := NewDisassembler()
+		d.IsCDNA3 = true
+		inst, err := d.Decode(buf)
+		if err != nil {
+			t.Fatal(err)
+		}
+		return inst
+	}
+	// v_or_b32_sdwa v2, vcc_hi, v1 (S0 = 1, SRC0 = 107)
+	inst := dec(uint32(20)<<25|2<<17|1<<9|249, uint32(107)|6<<8|6<<16|1<<23|6<<24)
+	if inst.Src0.Register == nil || inst.Src0.Register.RegType != VCCHI {
+		t.Errorf("SDWA scalar source 107 decodes as %s, want vcc_hi", inst.Src0.String())
+	}
+	// s_load_dword s5, vcc, 0x0: SBASE = 53 (106 / 2)
+	inst = dec(0xC0000000|1<<17|5<<6|53, 0)
+	if inst.Base.Register == nil || inst.Base.Register.RegType != VCCLO || inst.Base.RegCount != 2 {
+		t.Errorf("SMEM base code 106 decodes as %s, want vcc", inst.Base.String())
+	}
+	// s_load_dword s5, s[2:3], m0 (IMM = 0, offset register 124)
+	inst = dec(0xC0000000|5<<6|1, 124)
+	if inst.Offset.Register == nil || inst.Offset.Register.RegType != M0 {
+		t.Errorf("SMEM offset register 124 decodes as %s, want m0", inst.Offset.String())
+	}
+}
